@@ -106,6 +106,24 @@ def _blackbox(case, ctx):
     Xte, cte, _ = pzoo.make_panel(rng, 9, case["nc"], case["nt"], classes=k)
     yte, _ = _labels(case["labels"], cte, k)
     clf = pzoo.build(name, case["eseed"])
+    if case["dseed"] % 4 == 1:
+        # the classifier under another value of one of its constructor options (refused combinations end the case)
+        variant = pzoo.random_variant(np.random.default_rng([case["dseed"], 7]), clf)
+        if variant:
+            vk = variant.split("=", 1)[0]
+            try:
+                probe = pzoo.build(name, case["eseed"])
+                probe.set_params(**{vk: clf.get_params(deep=False)[vk]})
+                probe.fit(X, ytrain)
+                pp = np.asarray(probe.predict_proba(Xte), dtype=float)
+                if getattr(probe, "n_estimators", 1) == 0 and hasattr(probe, "classifiers"):
+                    # the option value leaves no admissible window for series of this length: the ensemble has no member at all
+                    ctx.tag("option-variant-degenerate:%s:%s:empty-ensemble" % (name, vk))
+                    return
+            except Exception as e:  # noqa
+                ctx.tag("option-variant-rejected:%s:%s:%s" % (name, vk, type(e).__name__))
+                return
+            ctx.tag("option-variant")
     if case["dseed"] % 3 == 0:
         # the instance had an earlier life: fitted on another problem with more classes and other label values (of the same type);
         # after fit on this problem nothing of that may show (all monitors below run on the reused instance)
